@@ -1317,6 +1317,10 @@ impl World {
                 l.rn.raft.msgs.len() > pre.msgs_len
             });
         if started_pre {
+            if !self.scen.lock_majority.is_empty() {
+                // (ghost rounds are kept only where the lease monitor can use them)
+                self.nodes[i].g.pre_round += 1;
+            }
             let l = self.nodes[i].live.as_mut().unwrap();
             l.prevote_grants = vec![id];
             l.prevote_term = post.term + 1;
@@ -1328,6 +1332,13 @@ impl World {
                 && pre.role == StateRole::PreCandidate
                 && m.term == self.live(i).unwrap().prevote_term
             {
+                // a grant released during an earlier pre-campaign of this node (ghost rounds)
+                if let Some(pos) = self.ghost.pre_grants.iter().position(|g| g.0 == m.from && g.1 == id && g.2 == m.term) {
+                    let g = self.ghost.pre_grants.remove(pos);
+                    if g.3 < self.nodes[i].g.pre_round {
+                        self.ghost.stale_grant_terms.insert(m.term);
+                    }
+                }
                 let conf = self.my_conf_pre(i, pre);
                 let l = self.nodes[i].live.as_mut().unwrap();
                 if !l.prevote_grants.contains(&m.from) {
@@ -1759,6 +1770,10 @@ impl World {
                     id, t, m.to, m.term, disk.hs.term
                 ),
             );
+        }
+        if !self.scen.lock_majority.is_empty() && t == MessageType::MsgRequestPreVoteResponse && !m.reject && (m.to as usize) <= self.nodes.len() && m.to > 0 {
+            let round = self.nodes[m.to as usize - 1].g.pre_round;
+            self.ghost.pre_grants.push((id, m.to, m.term, round));
         }
         match t {
             MessageType::MsgRequestVoteResponse if !m.reject => {
